@@ -18,7 +18,7 @@ func init() {
 		Prop:  "C13",
 		Title: "Caches and pools are semantically invisible",
 		Explanation: "A cache changes a result only if a hit returns what a miss would not compute, i.e. if the key determines less than the computation reads. " +
-			"R13a result-cache key completeness: the key of the per-record result cache is built from Node.ID and the declaration hash (both found by data flow from the map lookup in ParseNode); (i) the hash covers every exported field of Decl/CustomFuncDecl (deepCopy stores each one, each has a json tag that encodes it; the hashing function encodes json.Marshal(deepCopy(its own parameter)), directly or through helpers of its package followed by return value and parameter binding, the copy is not written on the way, and every interning key is that encoding through injective steps); (ii) every read of an unexported Decl/CustomFuncDecl field on the evaluation path is classified: the hash itself, content-determined fields (kind: its writer reads only exported fields; children: filled only from Object/Array/Args), path-name strings whose uses are result-neutral (error texts) or in the enumerated table (object member name, root test), and position links (parent) whose every value-affecting read is reported; (iii) no tree surgery (AddChild/RemoveAndReleaseTree) is reachable from ParseNode; (iv) the cache store is control-dependent on err == nil; (v) no exported field of a Decl is written after its hash was computed; (vi) lookup and store use the same key value. " +
+			"R13a result-cache key completeness: the key of the per-record result cache is built from Node.ID and the declaration hash (both found by data flow from the map lookup in ParseNode, through key-building helpers of the repository with parameter binding, and required on every path that builds the key: Phi edges, helper returns and assignments of the key variable are intersected); (i) the hash covers every exported field of Decl/CustomFuncDecl (deepCopy stores each one, each has a json tag that encodes it; the hashing function encodes json.Marshal(deepCopy(its own parameter)), directly or through helpers of its package followed by return value and parameter binding, the copy is not written on the way, and every interning key is that encoding through injective steps); (ii) every read of an unexported Decl/CustomFuncDecl field on the evaluation path is classified: the hash itself, content-determined fields (kind: its writer reads only exported fields; children: filled only from Object/Array/Args), path-name strings whose uses are result-neutral (error texts) or in the enumerated table (object member name, root test), and position links (parent) whose every value-affecting read is reported; (iii) no tree surgery (AddChild/RemoveAndReleaseTree) is reachable from ParseNode; (iv) the cache store is control-dependent on err == nil; (v) no exported field of a Decl is written after its hash was computed; (vi) lookup and store use the same key value. " +
 			"R13b loader purity for every caches.LoadingCache.Get in the repository and in go-corelib/caches: the loader's free variables are the key itself or immutable. " +
 			"R13d pools: node pool — reset exhaustive and blank, ID from the atomic counter, reset dominates Put, no use after release (= C12 R12b–d); VM pool — set/delete symmetry, cleanup deferred and ordered before Put (= C20 R20a). " +
 			"R13e the cache switches (package-level flags read on the run path, the context's disable flag) have no writer outside package initialisers / the constructor. " +
